@@ -5,7 +5,10 @@ import Pendulum.Model.Interval
   (`new`: `Interval(x, y, absolute)` = `pendulum.interval` = `x.diff(y, absolute)`; `sub`: `x - y`; `abs`: `abs(x - y)`;
   `neg`: `-(x - y)`; `subn`: `x - native(y)`; `rsubn`: `native(y) - x`)
   → `ok <length µs> <in_seconds> <in_minutes> <in_hours>` / `err OverflowError`
-* `c05date <start day> <end day> <absolute>` → same reply -/
+* `c05date <start day> <end day> <absolute>` → same reply
+* `c05days <zrefX> <wallX> <foldX> <zrefY> <wallY> <foldY> <absolute>` (`Interval(x, y, absolute)`, x and y naive or on ONE
+  tzinfo object) → `ok <in_days> <in_weeks>` / `err OverflowError` (raised by `Interval.__new__` before `__init__`)
+* `c05ddays <start day> <end day> <absolute>` (Date pair) → `ok <in_days> <in_weeks> <length µs>` -/
 namespace Pendulum.Drv.C05
 open Pendulum Pendulum.Drv Pendulum.DTOps Pendulum.Interval
 
@@ -32,6 +35,20 @@ def handle (zs : Zones) (ws : List String) : Option String :=
     let a ← a.toInt?
     let b ← b.toInt?
     some (replyLen (.ok (dateNew a b (ab == "1"))))
+  | ["c05days", zx, wx, fx, zy, wy, fy, ab] => do
+    let x ← parseV zs zx wx fx
+    let y ← parseV zs zy wy fy
+    let a := ab == "1"
+    match new x y true a with
+    | .error e => some ("err " ++ e.name)
+    | .ok _ =>
+      let d := inDays x y a
+      some (okInts [d, inWeeks d])
+  | ["c05ddays", a, b, ab] => do
+    let a ← a.toInt?
+    let b ← b.toInt?
+    let d := dateInDays a b (ab == "1")
+    some (okInts [d, inWeeks d, dateNew a b (ab == "1")])
   | _ => none
 
 end Pendulum.Drv.C05
